@@ -484,6 +484,8 @@ def evaluate__format_integer(self: XPathFunction, context: ta.ContextType = None
         context = self.context
 
     value = self.get_argument(context)
+    if isinstance(value, XPathNode):
+        value = self.data_value(value)  # function conversion rules: the argument is atomized
     if isinstance(value, UntypedAtomic):
         value = self.cast_to_primitive_type(value, 'xs:integer')
     picture = self.get_argument(context, index=1, required=True, cls=str)
@@ -1807,9 +1809,12 @@ def evaluate__round(self: XPathFunction, context: ta.ContextType = None) \
         context = self.context
 
     arg: ta.NumericType | None = self.get_argument(context)
+    if isinstance(arg, XPathNode) and not self.parser.compatibility_mode:
+        arg = self.data_value(arg)  # function conversion rules: the argument is atomized
+
     if arg is None:
         return []
-    elif isinstance(arg, XPathNode) or self.parser.compatibility_mode:
+    elif self.parser.compatibility_mode:
         arg = self.number_value(arg)
     elif isinstance(arg, UntypedAtomic):
         arg = self.cast_to_double(arg.value)  # function conversion rules: untyped -> xs:double
